@@ -1309,8 +1309,19 @@ func (x *Xlat) callUnknownFuncValue(st *State, fr *Frame, out *Outcomes, ce *ast
 	}
 	// effects: a function value of unknown origin may be any closure of the module with that signature.
 	keys := x.eff.UnknownFuncEffects(sig)
+	dispatch := x.lock != nil && x.lock.funcs["*dispatch"]
+	if dispatch {
+		// lockstep composition: the callee (a size option, a phase reached through an interface) is scale equivariant by
+		// assumption - proved per function for the phases in the lockstep set, an input assumption for user callbacks:
+		// the state must be coupled before the call and is coupled after it
+		x.lockState(st, x.lockAllKeys(st), "call", ce.Pos())
+		x.lockHavocOK = true
+	}
 	for _, k := range keys {
 		x.havocRegion(st, k)
+	}
+	if dispatch {
+		x.lockHavocOK = false
 	}
 	x.havoced["funcvalue:"+what] = true
 	if x.trackPanic {
@@ -1339,8 +1350,16 @@ func (x *Xlat) callInterface(st *State, fr *Frame, out *Outcomes, ce *ast.CallEx
 	}
 	// other interfaces: union of effects of all implementations in the module
 	keys := x.eff.InterfaceMethodEffects(m)
+	dispatch := x.lock != nil && x.lock.funcs["*dispatch"]
+	if dispatch {
+		x.lockState(st, x.lockAllKeys(st), "call", ce.Pos())
+		x.lockHavocOK = true
+	}
 	for _, k := range keys {
 		x.havocRegion(st, k)
+	}
+	if dispatch {
+		x.lockHavocOK = false
 	}
 	x.havoced["iface:"+m.Name()] = true
 	if x.trackPanic {
